@@ -1,7 +1,933 @@
-//! C10 — STARK lookups and cross-table lookups (see DESIGN.md §C10).
+//! C10 — STARK lookups and cross-table lookups hold iff the looked-up values are present
+//! (see DESIGN.md §C10).
+//!
+//! (a) `single_table_lookups`: generated STARKs with 1-2 `Lookup`s, proved and verified by the real
+//!     prover / verifier; single-value changes of the trace (looking value, table value, frequency,
+//!     filter bit) judged by the harness's multiset oracle, and perturbations of one helper / running-sum
+//!     value before commitment (always to be rejected).
+//! (b) `cross_table_lookups`: 2-3 tables linked by 1-2 `CrossTableLookup`s; the multi-table pipeline is
+//!     rebuilt from public functions with one fixed transcript discipline (all trace caps, CTL challenges,
+//!     then per table a clone that absorbs the public inputs and the config, `ignore_trace_cap = true`).
+//!     Negatives: single-value changes on either side, filter bits, extra values, perturbed auxiliary
+//!     values, and forged CTL running sums / helper cells that compensate a multiset difference.
 
-use crate::engine::Ctx;
+use std::sync::Arc;
+
+use hashbrown::HashMap as HbMap;
+use plonky2::field::polynomial::PolynomialValues;
+use plonky2::field::types::Field;
+use plonky2::fri::oracle::PolynomialBatch;
+use plonky2::iop::challenger::Challenger;
+use plonky2::plonk::config::GenericConfig;
+use plonky2::util::timing::TimingTree;
+use plonky2::verif_hooks::{reset_knobs, set_knobs, Knobs};
+use proptest::prelude::*;
+use serde::{Deserialize, Serialize};
+use serde_json::json;
+use starky::config::StarkConfig;
+use starky::cross_table_lookup::{get_ctl_data, verify_cross_table_lookups, CrossTableLookup, CtlCheckVars, CtlData, CtlZData};
+use starky::lookup::{get_grand_product_challenge_set, Column, Filter, GrandProductChallengeSet};
+use starky::proof::StarkProofWithPublicInputs;
+use starky::prover::{prove, prove_with_commitment};
+use starky::stark::Stark;
+use starky::verifier::{verify_stark_proof, verify_stark_proof_with_challenges};
+
+use crate::circuit::PC;
+use crate::engine::{bx, catch, frac, hash_of, Ctx, Stats};
+use crate::gen::dsl::{D, F};
+use crate::gen::field::canonical;
+use crate::gen::stark::*;
+use crate::gen::stark_lookup::*;
+use crate::props::common::frac32;
+use crate::with_stark_shape;
+
+type H = <PC as GenericConfig<D>>::Hasher;
+type Proof = StarkProofWithPublicInputs<F, PC, D>;
+
+fn row_by_class(class: u8, raw: u32, n: usize) -> usize {
+    match class % 6 {
+        0 => 0,
+        1 => n - 1,
+        2 => n - 2,
+        3 => 1,
+        _ => frac32(raw, n),
+    }
+}
+
+fn nonzero_delta(raw: u64, mode: u8) -> u64 {
+    match mode % 3 {
+        0 => 1,
+        1 => crate::gen::field::P - 1,
+        _ => {
+            let d = raw % crate::gen::field::P;
+            if d == 0 {
+                1
+            } else {
+                d
+            }
+        }
+    }
+}
+
+// ==========================================================================================
+// (a) single-table lookups
+// ==========================================================================================
+
+#[derive(Clone, Debug, Serialize, Deserialize, PartialEq, Eq, Hash)]
+pub struct RawNeg {
+    pub kind: u8,
+    pub lookup: u16,
+    pub pos: u32,
+    pub row_class: u8,
+    pub row: u32,
+    pub val: u64,
+    pub which: u16,
+    pub delta: u64,
+}
+
+fn raw_neg() -> BoxedStrategy<RawNeg> {
+    bx((any::<u8>(), any::<u16>(), any::<u32>(), any::<u8>(), any::<u32>(), canonical(), any::<u16>(), canonical())
+        .prop_map(|(kind, lookup, pos, row_class, row, val, which, delta)| RawNeg { kind, lookup, pos, row_class, row, val, which, delta }))
+}
+
+#[derive(Clone, Debug, Serialize, Deserialize)]
+pub struct CaseA {
+    pub stark: RawLkStark,
+    pub negs: Vec<RawNeg>,
+}
+
+fn case_a(n_negs: usize) -> BoxedStrategy<CaseA> {
+    bx((raw_lk_stark(), prop::collection::vec(raw_neg(), n_negs..=n_negs)).prop_map(|(stark, negs)| CaseA { stark, negs }))
+}
+
+const NEG_A: [&str; 12] = [
+    "looking_to_non_table_value",
+    "looking_to_other_table_value",
+    "looking_moved_and_frequencies_fixed",
+    "table_value_fresh",
+    "table_value_duplicated",
+    "frequency_changed",
+    "filter_bit_flipped",
+    "filter_flipped_and_frequencies_fixed",
+    "aux_helper_perturbed",
+    "aux_running_sum_perturbed",
+    "filtered_out_cell_changed",
+    "looking_to_non_table_value",
+];
+
+enum Change {
+    Trace(Vec<Vec<F>>),
+    Aux((usize, usize, u64)),
+}
+
+/// (column k, row r) pairs of a lookup whose filter is on / off, restricted to columns with their own cell
+fn looking_cells(l: &LookupBuilt, trace: &[Vec<F>], on: bool) -> Vec<(usize, usize)> {
+    let mut out = vec![];
+    for (k, s) in l.slots.iter().enumerate() {
+        if s.is_none() {
+            continue;
+        }
+        for r in 0..trace.len() {
+            if l.filters[k].eval(&trace[r]).is_one() == on {
+                out.push((k, r));
+            }
+        }
+    }
+    out
+}
+
+fn table_values(l: &LookupBuilt, trace: &[Vec<F>]) -> Vec<F> {
+    (0..trace.len()).map(|r| l.def.table.eval(trace, r)).collect()
+}
+
+fn fresh_value(tvals: &[F], seed: u64) -> F {
+    let mut v = fu(seed);
+    while tvals.contains(&v) {
+        v += F::ONE;
+    }
+    v
+}
+
+/// Apply one single-value change of kind `kind` to lookup `l` of a table; returns the name actually applied.
+fn change_lookup(l: &LookupBuilt, def: &StarkDef, base: &[Vec<F>], rn: &RawNeg, num_challenges: usize, li: usize) -> (Change, &'static str) {
+    let n = base.len();
+    let mut trace = base.to_vec();
+    let tvals = table_values(l, &trace);
+    let on_cells = looking_cells(l, &trace, true);
+    let mut kind = (rn.kind % 12) as usize;
+    // fall-backs when the requested change is not available
+    if kind == 10 && looking_cells(l, &trace, false).is_empty() {
+        kind = 0;
+    }
+    if (kind == 6 || kind == 7) && l.filters.iter().all(|f| *f == FilterDef::None) {
+        kind = if kind == 6 { 1 } else { 2 };
+    }
+    if on_cells.is_empty() && matches!(kind, 0 | 1 | 2 | 11) {
+        kind = 3;
+    }
+    match kind {
+        0 | 11 => {
+            let (k, r) = on_cells[frac32(rn.pos, on_cells.len())];
+            l.slots[k].as_ref().unwrap().set(&mut trace, r, fresh_value(&tvals, rn.val));
+        }
+        1 | 2 => {
+            let (k, r) = on_cells[frac32(rn.pos, on_cells.len())];
+            let cur = l.def.columns[k].eval(&trace, r);
+            let start = frac(rn.which, n);
+            let new = (0..n).map(|i| tvals[(start + i) % n]).find(|&v| v != cur);
+            match new {
+                Some(v) => l.slots[k].as_ref().unwrap().set(&mut trace, r, v),
+                None => l.slots[k].as_ref().unwrap().set(&mut trace, r, fresh_value(&tvals, rn.val)),
+            }
+            if kind == 2 {
+                let _ = l.fill_frequencies(&mut trace, rn.which & 1 == 1);
+            }
+        }
+        3 => {
+            let r = row_by_class(rn.row_class, rn.row, n);
+            l.table_slot.set(&mut trace, r, fresh_value(&tvals, rn.val));
+        }
+        4 => {
+            let r = row_by_class(rn.row_class, rn.row, n);
+            let start = frac(rn.which, n);
+            let new = (0..n).map(|i| tvals[(start + i) % n]).find(|&v| v != tvals[r]).unwrap_or(tvals[r] + F::ONE);
+            l.table_slot.set(&mut trace, r, new);
+        }
+        5 => {
+            let r = row_by_class(rn.row_class, rn.row, n);
+            let m = l.def.freq.eval(&trace, r);
+            l.freq_slot.set(&mut trace, r, m + fu(nonzero_delta(rn.delta, rn.which as u8)));
+        }
+        6 | 7 => {
+            let cols: Vec<usize> = (0..l.filters.len()).filter(|&k| l.filters[k] != FilterDef::None).collect();
+            let k = cols[frac(rn.which, cols.len())];
+            let c = l.filters[k].flip_col().unwrap();
+            let r = row_by_class(rn.row_class, rn.row, n);
+            trace[r][c] = F::ONE - trace[r][c];
+            if kind == 7 {
+                let _ = l.fill_frequencies(&mut trace, false);
+            }
+        }
+        8 | 9 => {
+            let (layout, _) = lookup_aux_layout(def, num_challenges);
+            let mine: Vec<_> = layout.iter().filter(|e| e.0 == li).collect();
+            let e = mine[frac(rn.which, mine.len())];
+            let poly = if kind == 8 { e.2 + frac32(rn.pos, e.3) } else { e.2 + e.3 };
+            let r = row_by_class(rn.row_class, rn.row, n);
+            return (Change::Aux((poly, r, nonzero_delta(rn.delta, rn.which as u8))), NEG_A[kind]);
+        }
+        _ => {
+            let off = looking_cells(l, &trace, false);
+            let (k, r) = off[frac32(rn.pos, off.len())];
+            let cur = l.def.columns[k].eval(&trace, r);
+            let new = if rn.which & 1 == 0 { fu(rn.val) } else { tvals[frac(rn.which, n)] };
+            l.slots[k].as_ref().unwrap().set(&mut trace, r, if new == cur { new + F::ONE } else { new });
+        }
+    }
+    (Change::Trace(trace), NEG_A[kind])
+}
+
+fn prove_single<const COLS: usize, const PIS: usize>(stark: &GenStark<COLS, PIS>, config: &StarkConfig, trace: &[Vec<F>], pis: &[F], knobs: Knobs) -> Result<anyhow::Result<Proof>, String> {
+    let cols = trace_columns(trace, COLS);
+    set_knobs(knobs);
+    let r = catch(|| prove::<F, PC, GenStark<COLS, PIS>, D>(stark.clone(), config, cols, pis, None, &mut TimingTree::default()));
+    reset_knobs();
+    r
+}
+
+/// Expected acceptance of a single table: ordinary constraints and every lookup relation.
+fn table_expectation(t: &TableBuilt, trace: &[Vec<F>]) -> Result<Option<String>, String> {
+    let v = violations(&t.def, trace, &t.pis);
+    if !v.is_empty() {
+        return Ok(Some(format!("ordinary constraints violated: {:?}", v)));
+    }
+    for (i, l) in t.lookups.iter().enumerate() {
+        if let Some(d) = lookup_verdict(l, trace)?.defect {
+            return Ok(Some(format!("lookup {}: {}", i, d)));
+        }
+    }
+    Ok(None)
+}
+
+fn run_a<const COLS: usize, const PIS: usize>(c: &CaseA, el: &LkStark, st: &mut Stats) -> Result<(), String> {
+    let t = &el.table;
+    let stark = GenStark::<COLS, PIS> { def: Arc::new(t.def.clone()) };
+    let chash = hash_of(&c.stark);
+    for l in &el.labels {
+        st.label(l);
+    }
+    let ctx = || format!("{:?} lookups {:?}", el.labels, t.def.lookups);
+    // ---- generator / oracle sanity
+    if let Some(d) = table_expectation(t, &t.trace)? {
+        return Err(format!("generator bug: the constructed trace does not satisfy the statement: {}", d));
+    }
+    let mut rich = true;
+    for l in &t.lookups {
+        let v = lookup_verdict(l, &t.trace)?;
+        rich &= v.filtered_values >= 2 && v.used_table_rows >= 2;
+    }
+    st.label(if rich { "positive_nontrivial" } else { "positive_small" });
+    // ---- positive
+    st.evals(1);
+    let proof = prove_single(&stark, &el.config, &t.trace, &t.pis, Knobs::default())
+        .map_err(|p| format!("prover PANICKED on a trace whose lookups hold: {} [{}]", p, ctx()))?
+        .map_err(|e| format!("prover failed on a trace whose lookups hold: {:#} [{}]", e, ctx()))?;
+    catch(|| verify_stark_proof(stark.clone(), proof.clone(), &el.config, None))
+        .map_err(|p| format!("verifier PANICKED on an honest lookup proof: {} [{}]", p, ctx()))?
+        .map_err(|e| format!("honest lookup proof rejected: {:#} [{}]", e, ctx()))?;
+    if rich {
+        st.nontrivial(&(chash, "positive"));
+    }
+    // ---- negatives
+    for rn in &c.negs {
+        let li = frac(rn.lookup, t.lookups.len());
+        let (change, name) = change_lookup(&t.lookups[li], &t.def, &t.trace, rn, el.config.num_challenges, li);
+        st.evals(1);
+        st.label(&format!("neg:{}", name));
+        let mut knobs = Knobs::default();
+        knobs.lenient_quotient = true;
+        let (trace, expected): (Vec<Vec<F>>, Option<String>) = match change {
+            Change::Trace(tr) => {
+                let e = table_expectation(t, &tr)?;
+                (tr, e)
+            }
+            Change::Aux(p) => {
+                knobs.aux_perturb = Some(p);
+                (t.trace.clone(), Some(format!("auxiliary polynomial {} perturbed on row {} by {}", p.0, p.1, p.2)))
+            }
+        };
+        let res = prove_single(&stark, &el.config, &trace, &t.pis, knobs);
+        match expected {
+            None => {
+                st.label("expected_accept");
+                let p = res
+                    .map_err(|p| format!("prover PANICKED on a changed trace whose lookups still hold ({}): {} [{}]", name, p, ctx()))?
+                    .map_err(|e| format!("prover failed on a changed trace whose lookups still hold ({}): {:#} [{}]", name, e, ctx()))?;
+                catch(|| verify_stark_proof(stark.clone(), p, &el.config, None))
+                    .map_err(|p| format!("verifier panicked: {}", p))?
+                    .map_err(|e| format!("proof rejected although the multiset relation holds after the change ({}): {:#} [{}]", name, e, ctx()))?;
+                st.nontrivial(&(chash, rn, "accept"));
+            }
+            Some(why) => {
+                st.label("expected_reject");
+                match res {
+                    Err(_) => st.label("weak:prover_panicked"),
+                    Ok(Err(_)) => st.label("weak:prover_err"),
+                    Ok(Ok(p)) => {
+                        st.label("proof_emitted");
+                        st.nontrivial(&(chash, rn));
+                        let ok = catch(|| verify_stark_proof(stark.clone(), p, &el.config, None)).map(|r| r.is_ok()).unwrap_or(false);
+                        if ok {
+                            return Err(format!("STARK verifier ACCEPTED a proof although {} (change: {}) [{}]", why, name, ctx()));
+                        }
+                    }
+                }
+            }
+        }
+    }
+    st.sample(|| json!({"labels": el.labels, "roles": t.roles, "lookups": format!("{:?}", t.def.lookups), "config": format!("{:?}", el.config)}));
+    Ok(())
+}
+
+fn prop_a(c: &CaseA, st: &mut Stats) -> Result<(), String> {
+    let el = build_lookup_stark(&c.stark).map_err(|e| format!("generator bug: {}", e))?;
+    with_stark_shape!(el.table.shape, run_a, c, &el, st)
+}
+
+// ==========================================================================================
+// (b) cross-table lookups
+// ==========================================================================================
+
+#[derive(Clone, Debug, Serialize, Deserialize, PartialEq, Eq, Hash)]
+pub struct RawNegB {
+    pub kind: u8,
+    pub ctl: u16,
+    pub side: u16,
+    pub pos: u32,
+    pub col: u16,
+    pub val: u64,
+    pub table: u16,
+    pub which: u16,
+    pub row_class: u8,
+    pub row: u32,
+    pub delta: u64,
+    pub inner: RawNeg,
+}
+
+fn raw_neg_b() -> BoxedStrategy<RawNegB> {
+    bx((
+        (any::<u8>(), any::<u16>(), any::<u16>(), any::<u32>(), any::<u16>(), canonical()),
+        (any::<u16>(), any::<u16>(), any::<u8>(), any::<u32>(), canonical(), raw_neg()),
+    )
+        .prop_map(|((kind, ctl, side, pos, col, val), (table, which, row_class, row, delta, inner))| RawNegB {
+            kind,
+            ctl,
+            side,
+            pos,
+            col,
+            val,
+            table,
+            which,
+            row_class,
+            row,
+            delta,
+            inner,
+        }))
+}
+
+#[derive(Clone, Debug, Serialize, Deserialize)]
+pub struct CaseB {
+    pub sys: RawCtlSys,
+    pub negs: Vec<RawNegB>,
+}
+
+fn case_b(n_negs: usize) -> BoxedStrategy<CaseB> {
+    bx((raw_ctl_sys(), prop::collection::vec(raw_neg_b(), n_negs..=n_negs)).prop_map(|(sys, negs)| CaseB { sys, negs }))
+}
+
+/// What the forging prover does to the CTL auxiliary columns of one table.
+#[derive(Clone, Debug)]
+enum Forge {
+    /// replace every CTL entry of the table by the harness's own (honest) computation
+    OwnHonest { table: usize },
+    /// make up for the difference of the two sides by adding it to Z on rows 0..=row of one entry
+    ShiftZ { ctl: usize, looked: bool, group: usize, row: u32, row_class: u8 },
+    /// make up for the difference by adding it to one helper cell (Z recomputed consistently)
+    HelperCell { ctl: usize, group: usize, chunk: u16, row: u32, row_class: u8 },
+}
+
+struct World<'a> {
+    sys: &'a CtlSystem,
+    defs: Vec<Arc<StarkDef>>,
+    ctls: Vec<CrossTableLookup<F>>,
+}
+
+struct Attempt<'a> {
+    traces: &'a [Vec<Vec<F>>],
+    extras: &'a [Vec<Vec<F>>],
+    lenient: bool,
+    aux: Option<(usize, (usize, usize, u64))>,
+    forge: Option<Forge>,
+}
+
+fn prove_table<const COLS: usize, const PIS: usize>(
+    def: &Arc<StarkDef>,
+    config: &StarkConfig,
+    trace: &[PolynomialValues<F>],
+    commitment: &PolynomialBatch<F, PC, D>,
+    ctl_data: &CtlData<F>,
+    ctl_challenges: &GrandProductChallengeSet<F>,
+    challenger: &mut Challenger<F, H>,
+    pis: &[F],
+) -> anyhow::Result<Proof> {
+    let stark = GenStark::<COLS, PIS> { def: def.clone() };
+    prove_with_commitment::<F, PC, GenStark<COLS, PIS>, D>(
+        &stark,
+        config,
+        trace,
+        commitment,
+        Some(ctl_data),
+        Some(ctl_challenges),
+        challenger,
+        pis,
+        None,
+        None,
+        &mut TimingTree::default(),
+    )
+}
+
+fn verify_table<const COLS: usize, const PIS: usize>(
+    def: &Arc<StarkDef>,
+    config: &StarkConfig,
+    table: usize,
+    proof: &Proof,
+    ctls: &[CrossTableLookup<F>],
+    ctl_challenges: &GrandProductChallengeSet<F>,
+    base: &Challenger<F, H>,
+    degree: usize,
+) -> anyhow::Result<()> {
+    let stark = GenStark::<COLS, PIS> { def: def.clone() };
+    anyhow::ensure!(proof.public_inputs.len() == PIS, "wrong number of public inputs");
+    let (total_helpers, _num_zs, helpers_by_ctl) = CrossTableLookup::num_ctl_helpers_zs_all(ctls, table, config.num_challenges, degree);
+    let num_lookup_columns = stark.num_lookup_helper_columns(config);
+    let ctl_vars = CtlCheckVars::from_proof(table, &proof.proof, ctls, ctl_challenges, num_lookup_columns, total_helpers, &helpers_by_ctl);
+    let mut ch = base.clone();
+    ch.observe_elements(&proof.public_inputs);
+    let challenges = proof.proof.get_challenges(&stark, &proof.public_inputs, &mut ch, Some(ctl_challenges), Some(&ctl_vars), true, config, None);
+    verify_stark_proof_with_challenges(&stark, &proof.proof, &challenges, Some(&ctl_vars), &proof.public_inputs, config)
+}
+
+/// sum over the extra looking tuples of 1/combine(tuple) for one challenge
+fn extra_sum(extras: &[Vec<F>], beta: F, gamma: F) -> F {
+    extras.iter().map(|t| combine(t, beta, gamma).inverse()).sum()
+}
+
+enum ProveOutcome {
+    Proofs(Vec<Proof>),
+    /// the prover gave up (Err / panic) on some table
+    Weak(String),
+}
+
+fn prove_system<const N: usize>(w: &World, a: &Attempt) -> Result<ProveOutcome, String> {
+    let sys = w.sys;
+    let config = &sys.config;
+    let fc = &config.fri_config;
+    let cols: Vec<Vec<PolynomialValues<F>>> = (0..N).map(|t| trace_columns(&a.traces[t], sys.tables[t].def.cols)).collect();
+    let arr: [Vec<PolynomialValues<F>>; N] = cols.clone().try_into().map_err(|_| "table count".to_string())?;
+    let commitments: Vec<PolynomialBatch<F, PC, D>> = catch(|| {
+        cols.iter()
+            .map(|c| PolynomialBatch::<F, PC, D>::from_values(c.clone(), fc.rate_bits, false, fc.cap_height, &mut TimingTree::default(), None))
+            .collect()
+    })
+    .map_err(|p| format!("trace commitment panicked: {}", p))?;
+    let mut challenger = Challenger::<F, H>::new();
+    for c in &commitments {
+        challenger.observe_cap(&c.merkle_tree.cap);
+    }
+    // own copies of the CTL columns / filters of the forged table (they must outlive `ctl_data`)
+    let forged_table = match &a.forge {
+        Some(Forge::OwnHonest { table }) => Some(*table),
+        Some(Forge::ShiftZ { ctl, looked, group, .. }) => Some(if *looked { sys.ctls[*ctl].looked.table } else { sys.ctls[*ctl].groups()[*group].0 }),
+        Some(Forge::HelperCell { ctl, group, .. }) => Some(sys.ctls[*ctl].groups()[*group].0),
+        None => None,
+    };
+    let entries: Vec<EntryRef> = forged_table.map(|t| table_entries(&sys.ctls, t, config.num_challenges, sys.degree)).unwrap_or_default();
+    let entry_sides = |e: &EntryRef| -> Vec<&SideBuilt> {
+        match &e.group {
+            Some(g) => g.iter().map(|&i| &sys.ctls[e.ctl].looking[i]).collect(),
+            None => vec![&sys.ctls[e.ctl].looked],
+        }
+    };
+    let own_cols: Vec<Vec<Vec<Column<F>>>> = entries.iter().map(|e| entry_sides(e).iter().map(|s| s.slots.iter().map(|sl| sl.col.to_column()).collect()).collect()).collect();
+    let own_filters: Vec<Vec<Filter<F>>> = entries.iter().map(|e| entry_sides(e).iter().map(|s| s.filter.to_filter()).collect()).collect();
+
+    let got = catch(|| get_ctl_data::<F, PC, D, N>(config, &arr, &w.ctls, &mut challenger, sys.degree));
+    let (ctl_challenges, mut ctl_data) = match got {
+        Ok(x) => x,
+        Err(p) => return Ok(ProveOutcome::Weak(format!("get_ctl_data panicked: {}", p))),
+    };
+    if let (Some(ft), Some(forge)) = (forged_table, &a.forge) {
+        for (idx, e) in entries.iter().enumerate() {
+            let ch = ctl_challenges.challenges[e.challenge];
+            let trace = &a.traces[ft];
+            let n = trace.len();
+            let (mut helpers, mut z) = group_aux(&entry_sides(e), trace, ch.beta, ch.gamma, sys.degree);
+            // difference of the two sides of this entry's CTL for this challenge (own sums)
+            let delta = || -> F {
+                let ctl = &sys.ctls[e.ctl];
+                let looked = group_aux(&[&ctl.looked], &a.traces[ctl.looked.table], ch.beta, ch.gamma, sys.degree).1[0];
+                let mut looking = extra_sum(&a.extras[e.ctl], ch.beta, ch.gamma);
+                for (t, g) in ctl.groups() {
+                    let sides: Vec<&SideBuilt> = g.iter().map(|&i| &ctl.looking[i]).collect();
+                    looking += group_aux(&sides, &a.traces[t], ch.beta, ch.gamma, sys.degree).1[0];
+                }
+                looked - looking
+            };
+            let replace = match forge {
+                Forge::OwnHonest { .. } => true,
+                Forge::ShiftZ { ctl, looked, group, row, row_class } => {
+                    let hit = e.ctl == *ctl && if *looked { e.group.is_none() } else { e.group.as_ref() == Some(&sys.ctls[*ctl].groups()[*group].1) };
+                    if hit {
+                        let d = if *looked { -delta() } else { delta() };
+                        let r = row_by_class(*row_class, *row, n);
+                        for zi in z.iter_mut().take(r + 1) {
+                            *zi += d;
+                        }
+                    }
+                    hit
+                }
+                Forge::HelperCell { ctl, group, chunk, row, row_class } => {
+                    let hit = e.ctl == *ctl && e.group.as_ref() == Some(&sys.ctls[*ctl].groups()[*group].1) && !helpers.is_empty();
+                    if hit {
+                        let d = delta();
+                        let r = row_by_class(*row_class, *row, n);
+                        let k = frac(*chunk, helpers.len());
+                        helpers[k][r] += d;
+                        for zi in z.iter_mut().take(r + 1) {
+                            *zi += d;
+                        }
+                    }
+                    hit
+                }
+            };
+            if replace {
+                ctl_data[ft].zs_columns[idx] = CtlZData::new(
+                    helpers.into_iter().map(PolynomialValues::new).collect(),
+                    PolynomialValues::new(z),
+                    ch,
+                    own_cols[idx].iter().map(|v| &v[..]).collect(),
+                    own_filters[idx].clone(),
+                );
+            }
+        }
+    }
+    let mut proofs = vec![];
+    for t in 0..N {
+        let tb = &sys.tables[t];
+        let mut ch = challenger.clone();
+        ch.observe_elements(&tb.pis);
+        config.observe(&mut ch);
+        let mut knobs = Knobs::default();
+        knobs.lenient_quotient = a.lenient;
+        if let Some((at, p)) = a.aux {
+            if at == t {
+                knobs.aux_perturb = Some(p);
+            }
+        }
+        set_knobs(knobs);
+        let r = catch(|| with_stark_shape!(tb.shape, prove_table, &w.defs[t], config, &arr[t], &commitments[t], &ctl_data[t], &ctl_challenges, &mut ch, &tb.pis));
+        reset_knobs();
+        match r {
+            Err(p) => return Ok(ProveOutcome::Weak(format!("prover panicked on table {}: {}", t, p))),
+            Ok(Err(e)) => return Ok(ProveOutcome::Weak(format!("prover failed on table {}: {:#}", t, e))),
+            Ok(Ok(p)) => proofs.push(p),
+        }
+    }
+    Ok(ProveOutcome::Proofs(proofs))
+}
+
+/// The verifier of the multi-table system; Err(stage: reason) on the first failing check.
+fn verify_system<const N: usize>(w: &World, proofs: &[Proof], extras: &[Vec<Vec<F>>]) -> Result<(), String> {
+    let sys = w.sys;
+    let config = &sys.config;
+    let mut challenger = Challenger::<F, H>::new();
+    for p in proofs {
+        challenger.observe_cap(&p.proof.trace_cap);
+    }
+    let ctl_challenges = get_grand_product_challenge_set(&mut challenger, config.num_challenges);
+    for t in 0..N {
+        let tb = &sys.tables[t];
+        catch(|| with_stark_shape!(tb.shape, verify_table, &w.defs[t], config, t, &proofs[t], &w.ctls, &ctl_challenges, &challenger, sys.degree))
+            .map_err(|p| format!("table {}: verifier panicked: {}", t, p))?
+            .map_err(|e| format!("table {}: {:#}", t, e))?;
+    }
+    let mut extra_sums: HbMap<usize, Vec<F>> = HbMap::new();
+    for (i, e) in extras.iter().enumerate() {
+        if !e.is_empty() {
+            extra_sums.insert(i, ctl_challenges.challenges.iter().map(|ch| extra_sum(e, ch.beta, ch.gamma)).collect());
+        }
+    }
+    let mut firsts: Vec<Vec<F>> = vec![];
+    for p in proofs {
+        firsts.push(p.proof.openings.ctl_zs_first.clone().ok_or_else(|| "missing ctl_zs_first".to_string())?);
+    }
+    let firsts: [Vec<F>; N] = firsts.try_into().map_err(|_| "table count".to_string())?;
+    catch(|| verify_cross_table_lookups::<F, D, N>(&w.ctls, firsts, &extra_sums, config))
+        .map_err(|p| format!("cross-table check panicked: {}", p))?
+        .map_err(|e| format!("cross-table check: {:#}", e))
+}
+
+fn prove_dispatch(w: &World, a: &Attempt) -> Result<ProveOutcome, String> {
+    match w.sys.n_tables {
+        2 => prove_system::<2>(w, a),
+        _ => prove_system::<3>(w, a),
+    }
+}
+
+fn verify_dispatch(w: &World, proofs: &[Proof], extras: &[Vec<Vec<F>>]) -> Result<(), String> {
+    match w.sys.n_tables {
+        2 => verify_system::<2>(w, proofs, extras),
+        _ => verify_system::<3>(w, proofs, extras),
+    }
+}
+
+/// Expected acceptance of the whole system: Ok(None) = accept.
+fn system_expectation(sys: &CtlSystem, traces: &[Vec<Vec<F>>], extras: &[Vec<Vec<F>>]) -> Result<Option<String>, String> {
+    for (t, tb) in sys.tables.iter().enumerate() {
+        if let Some(d) = table_expectation(tb, &traces[t])? {
+            return Ok(Some(format!("table {}: {}", t, d)));
+        }
+    }
+    let refs: Vec<&Vec<Vec<F>>> = traces.iter().collect();
+    for (i, ctl) in sys.ctls.iter().enumerate() {
+        if let Some(d) = ctl_verdict(ctl, &extras[i], &refs)?.defect {
+            return Ok(Some(format!("cross-table lookup {}: {}", i, d)));
+        }
+    }
+    Ok(None)
+}
+
+const NEG_B: [&str; 12] = [
+    "looking_value_changed",
+    "looked_value_changed",
+    "filter_bit_flipped",
+    "unselected_cell_changed",
+    "extra_value_changed",
+    "aux_perturbed",
+    "forged_running_sum",
+    "forged_helper_cell",
+    "own_aux_honest",
+    "table_lookup_changed",
+    "looking_value_changed",
+    "looked_value_changed",
+];
+
+/// Trace-level single-value change for the CTL system; returns the name applied.
+fn change_ctl(sys: &CtlSystem, traces: &mut [Vec<Vec<F>>], extras: &mut [Vec<Vec<F>>], rn: &RawNegB, kind: usize) -> &'static str {
+    let ci = frac(rn.ctl, sys.ctls.len());
+    let ctl = &sys.ctls[ci];
+    let pick_side = |looked: bool| -> &SideBuilt {
+        if looked {
+            &ctl.looked
+        } else {
+            &ctl.looking[frac(rn.side, ctl.looking.len())]
+        }
+    };
+    let new_value = |cur: F| -> F {
+        let v = match rn.which % 3 {
+            0 => fu(rn.val),
+            1 => cur + F::ONE,
+            _ => cur - F::ONE,
+        };
+        if v == cur {
+            v + F::ONE
+        } else {
+            v
+        }
+    };
+    match kind {
+        0 | 1 | 3 => {
+            let s = pick_side(kind == 1 || (kind == 3 && rn.side & 1 == 1));
+            let n = traces[s.table].len();
+            let rows: Vec<usize> = if kind == 3 { (0..n).filter(|r| !s.selected.contains(r)).collect() } else { s.selected.clone() };
+            let r = if rows.is_empty() { frac32(rn.pos, n) } else { rows[frac32(rn.pos, rows.len())] };
+            let slot = &s.slots[frac(rn.col, s.slots.len())];
+            let cur = slot.col.eval(&traces[s.table], r);
+            slot.set(&mut traces[s.table], r, new_value(cur));
+            NEG_B[kind]
+        }
+        2 => {
+            let s = pick_side(rn.side & 1 == 1);
+            match s.filter.flip_col() {
+                None => change_ctl(sys, traces, extras, rn, (rn.side & 1) as usize),
+                Some(c) => {
+                    let n = traces[s.table].len();
+                    let r = if rn.row_class & 1 == 0 && !s.selected.is_empty() { s.selected[frac32(rn.pos, s.selected.len())] } else { frac32(rn.row, n) };
+                    let x = traces[s.table][r][c];
+                    traces[s.table][r][c] = F::ONE - x;
+                    NEG_B[2]
+                }
+            }
+        }
+        _ => {
+            if extras[ci].is_empty() {
+                return change_ctl(sys, traces, extras, rn, 0);
+            }
+            let j = frac32(rn.pos, extras[ci].len());
+            let i = frac(rn.col, ctl.width);
+            let cur = extras[ci][j][i];
+            extras[ci][j][i] = new_value(cur);
+            NEG_B[4]
+        }
+    }
+}
+
+fn prop_b(c: &CaseB, st: &mut Stats) -> Result<(), String> {
+    let sys = build_ctl_system(&c.sys).map_err(|e| format!("generator bug: {}", e))?;
+    let chash = hash_of(&c.sys);
+    for l in &sys.labels {
+        st.label(l);
+    }
+    let w = World {
+        sys: &sys,
+        defs: sys.tables.iter().map(|t| Arc::new(t.def.clone())).collect(),
+        ctls: sys.ctls.iter().map(|c| c.to_ctl()).collect(),
+    };
+    let ctx = || format!("{:?}", sys.labels);
+    let base_traces: Vec<Vec<Vec<F>>> = sys.tables.iter().map(|t| t.trace.clone()).collect();
+    let base_extras: Vec<Vec<Vec<F>>> = sys.ctls.iter().map(|c| c.extras.clone()).collect();
+    if let Some(d) = system_expectation(&sys, &base_traces, &base_extras)? {
+        return Err(format!("generator bug: the constructed system does not satisfy the statement: {}", d));
+    }
+    let refs: Vec<&Vec<Vec<F>>> = base_traces.iter().collect();
+    let mut rich = true;
+    for (i, ctl) in sys.ctls.iter().enumerate() {
+        let v = ctl_verdict(ctl, &base_extras[i], &refs)?;
+        rich &= v.looking_rows >= 2 && v.looked_rows >= 2;
+    }
+    st.label(if rich { "positive_nontrivial" } else { "positive_small" });
+    // ---- positive
+    st.evals(1);
+    let honest = Attempt {
+        traces: &base_traces,
+        extras: &base_extras,
+        lenient: false,
+        aux: None,
+        forge: None,
+    };
+    let proofs = match prove_dispatch(&w, &honest)? {
+        ProveOutcome::Proofs(p) => p,
+        ProveOutcome::Weak(e) => return Err(format!("honest multi-table proving failed: {} [{}]", e, ctx())),
+    };
+    verify_dispatch(&w, &proofs, &base_extras).map_err(|e| format!("honest multi-table proof rejected at {} [{}]", e, ctx()))?;
+    if rich {
+        st.nontrivial(&(chash, "positive"));
+    }
+    // ---- negatives
+    for rn in &c.negs {
+        let mut traces = base_traces.clone();
+        let mut extras = base_extras.clone();
+        let mut aux = None;
+        let mut forge = None;
+        let mut forced_reject: Option<String> = None;
+        let kind = (rn.kind % 12) as usize;
+        let name: &'static str = match kind {
+            5 => {
+                // perturb one auxiliary value of one table: lookup helper / lookup Z / CTL helper / CTL Z
+                let t = frac(rn.table, sys.n_tables);
+                let tb = &sys.tables[t];
+                let n = tb.trace.len();
+                let (lk_layout, n_lk) = lookup_aux_layout(&tb.def, sys.config.num_challenges);
+                let entries = table_entries(&sys.ctls, t, sys.config.num_challenges, sys.degree);
+                let n_helpers: usize = entries.iter().map(|e| e.n_helpers).sum();
+                let class = rn.which % 4;
+                let (poly, what) = if class == 0 && !lk_layout.is_empty() {
+                    let e = lk_layout[frac32(rn.pos, lk_layout.len())];
+                    if rn.col & 1 == 0 {
+                        (e.2 + frac(rn.col, e.3), "aux:lookup_helper")
+                    } else {
+                        (e.2 + e.3, "aux:lookup_running_sum")
+                    }
+                } else if class <= 1 && n_helpers > 0 {
+                    (n_lk + frac32(rn.pos, n_helpers), "aux:ctl_helper")
+                } else {
+                    (n_lk + n_helpers + frac32(rn.pos, entries.len()), "aux:ctl_running_sum")
+                };
+                let r = row_by_class(rn.row_class, rn.row, n);
+                st.label(what);
+                aux = Some((t, (poly, r, nonzero_delta(rn.delta, rn.which as u8 / 4))));
+                forced_reject = Some(format!("{} (table {}, polynomial {}, row {})", what, t, poly, r));
+                NEG_B[5]
+            }
+            6 | 7 => {
+                // a multiset difference, compensated by forged auxiliary columns of one entry
+                let inner = change_ctl(&sys, &mut traces, &mut extras, rn, (rn.which % 3) as usize);
+                st.label(&format!("forge_after:{}", inner));
+                let ci = frac(rn.ctl, sys.ctls.len());
+                let groups = sys.ctls[ci].groups();
+                let with_helpers: Vec<usize> = (0..groups.len()).filter(|&g| groups[g].1.len() > 1).collect();
+                if kind == 7 && !with_helpers.is_empty() {
+                    forge = Some(Forge::HelperCell {
+                        ctl: ci,
+                        group: with_helpers[frac(rn.table, with_helpers.len())],
+                        chunk: rn.col,
+                        row: rn.row,
+                        row_class: rn.row_class,
+                    });
+                    NEG_B[7]
+                } else {
+                    let looked = rn.table & 1 == 1;
+                    // row class 1 = last row: only the last-row constraint notices; other rows: one transition
+                    forge = Some(Forge::ShiftZ {
+                        ctl: ci,
+                        looked,
+                        group: frac(rn.table >> 1, groups.len()),
+                        row: rn.row,
+                        row_class: if rn.delta & 1 == 0 { 1 } else { rn.row_class },
+                    });
+                    NEG_B[6]
+                }
+            }
+            8 => {
+                forge = Some(Forge::OwnHonest { table: frac(rn.table, sys.n_tables) });
+                NEG_B[8]
+            }
+            9 => {
+                let with_lk: Vec<usize> = (0..sys.n_tables).filter(|&t| !sys.tables[t].lookups.is_empty()).collect();
+                if with_lk.is_empty() {
+                    change_ctl(&sys, &mut traces, &mut extras, rn, 0)
+                } else {
+                    let t = with_lk[frac(rn.table, with_lk.len())];
+                    let tb = &sys.tables[t];
+                    let mut inner = rn.inner.clone();
+                    if matches!(inner.kind % 12, 8 | 9) {
+                        inner.kind = 0; // auxiliary perturbations are kind 5 here
+                    }
+                    match change_lookup(&tb.lookups[0], &tb.def, &tb.trace, &inner, sys.config.num_challenges, 0) {
+                        (Change::Trace(tr), what) => {
+                            st.label(&format!("table_lookup:{}", what));
+                            traces[t] = tr;
+                        }
+                        (Change::Aux(_), _) => unreachable!(),
+                    }
+                    NEG_B[9]
+                }
+            }
+            k => change_ctl(&sys, &mut traces, &mut extras, rn, [0, 1, 2, 3, 4, 0, 0, 0, 0, 0, 0, 1][k]),
+        };
+        st.evals(1);
+        st.label(&format!("neg:{}", name));
+        let expected = match forced_reject {
+            Some(w) => Some(w),
+            None => system_expectation(&sys, &traces, &extras)?,
+        };
+        let attempt = Attempt {
+            traces: &traces,
+            extras: &extras,
+            lenient: true,
+            aux,
+            forge,
+        };
+        let outcome = prove_dispatch(&w, &attempt)?;
+        match expected {
+            None => {
+                st.label("expected_accept");
+                let proofs = match outcome {
+                    ProveOutcome::Proofs(p) => p,
+                    ProveOutcome::Weak(e) => return Err(format!("proving failed although every multiset relation holds after the change ({}): {} [{}]", name, e, ctx())),
+                };
+                verify_dispatch(&w, &proofs, &extras).map_err(|e| format!("multi-table proof rejected although every multiset relation holds after the change ({}): {} [{}]", name, e, ctx()))?;
+                st.nontrivial(&(chash, rn, "accept"));
+            }
+            Some(why) => {
+                st.label("expected_reject");
+                match outcome {
+                    ProveOutcome::Weak(_) => st.label("weak:prover_gave_up"),
+                    ProveOutcome::Proofs(proofs) => {
+                        st.label("proof_emitted");
+                        st.nontrivial(&(chash, rn));
+                        match verify_dispatch(&w, &proofs, &extras) {
+                            Ok(()) => {
+                                return Err(format!("multi-table verification ACCEPTED although {} (change: {}) [{}]", why, name, ctx()));
+                            }
+                            Err(stage) => {
+                                let by = if stage.starts_with("cross-table") { "cross_table_check" } else { "table_verifier" };
+                                st.label(&format!("rejected_by:{}", by));
+                                if matches!(kind, 5 | 6 | 7) {
+                                    st.label(&format!("{}:rejected_by:{}", name, by));
+                                }
+                            }
+                        }
+                    }
+                }
+            }
+        }
+    }
+    st.sample(|| json!({"labels": sys.labels, "config": format!("{:?}", sys.config), "tables": sys.tables.iter().map(|t| t.roles.clone()).collect::<Vec<_>>()}));
+    Ok(())
+}
 
 pub fn run(ctx: &mut Ctx) {
-    let _ = ctx;
+    ctx.level = "fault_enumeration";
+    ctx.rule = "(a) run-time STARK (3-16 columns, 4..64 rows, declared degree 2 or 3) with 1-2 Lookups (1-5 looking columns: single / scaled / \
+                two-column combination with constant / next-row / mixed-row / alias of another column's next row; filters c or 1-c; table and \
+                frequency columns as combinations; optional duplicate table values, shared table) whose trace is built so that the logUp relation \
+                holds, then single-value changes judged by the harness's multiset oracle and single-value perturbations of helper / running-sum \
+                polynomials; (b) 2-3 such tables (own heights and shapes, optionally with a table-local Lookup) linked by 1-2 cross-table lookups \
+                (tuple width 1-3, 1-3 looking entries incl. the same table several times, filters c / 1-c / a*b / none, extra looking values, 1-3 \
+                challenges) proved and verified through the public multi-table API, then single-value changes on either side, perturbed auxiliary \
+                values and forged running sums / helper cells. Non-trivial = at least 2 filtered rows (values) on each side (positive); a negative is \
+                counted when the multiset relation is broken (or an auxiliary value altered) and a proof reached the verifier; distinct = distinct \
+                (definition, change) pairs"
+        .into();
+    ctx.assumptions.push("declared constraint degree is 2 or 3 and identical for all tables of a system; filters are 0/1 valued; rows x looking columns < p".into());
+    ctx.assumptions.push("table and frequency columns of a Lookup are combinations of current-row cells only (the constraints evaluate them on the local row)".into());
+    ctx.assumptions.push("looking entries of the same table are adjacent in a CrossTableLookup and the looked table does not look into itself (as in the known consumer)".into());
+    ctx.assumptions.push("multi-table transcript discipline (integration choice): all trace caps, CTL challenges, then per table a clone absorbing public inputs and the config, ignore_trace_cap = true".into());
+    ctx.assumptions.push("rejections rely on the logUp / random-evaluation soundness error <= (rows x columns + degree) / |F| per challenge, negligible for all generated sizes".into());
+    ctx.shrink_iters = 60;
+    let (na, ka) = ctx.tier.pick((1_100, 10), (16_000, 16));
+    ctx.run_sub("single_table_lookups", na, 16, move || case_a(ka), prop_a);
+    let (nb, kb) = ctx.tier.pick((900, 8), (12_000, 12));
+    ctx.run_sub("cross_table_lookups", nb, 16, move || case_b(kb), prop_b);
 }
